@@ -1,20 +1,9 @@
 package scratch
-import ("testing";"context";"fmt"
- "github.com/bufbuild/protocompile"
- "pgregory.net/rapid"
- "verif/harness/gen")
+import ("testing";"context";"fmt";"os"
+ "github.com/bufbuild/protocompile")
 func TestS(t *testing.T){
- fails:=map[string]int{}
- n:=0
- rapid.Check(t, func(rt *rapid.T){
-  ws:=gen.GenWorkspace(rt, gen.Config{CustomOpts:true, MaxFiles:2})
-  files:=ws.PrintAll()
-  c:=protocompile.Compiler{Resolver: protocompile.WithStandardImports(&protocompile.SourceResolver{Accessor: protocompile.SourceAccessorFromMap(files)})}
-  _,err:=c.Compile(context.Background(), ws.Names()...)
-  n++
-  if err!=nil { k:=err.Error(); if i:=len(k); i>0 {}; fails[k]++; if len(fails)<=3 && fails[k]==1 { for k,v:=range files { if k!="o/opts.proto" {fmt.Printf("--- %s\n%s\n",k,v)}}; fmt.Println("ERR:",err) } }
- })
- fmt.Println("cases",n,"distinct failures",len(fails))
- i:=0
- for k,v:=range fails { fmt.Println(v,k); i++; if i>25 {break} }
+ b,_:=os.ReadFile("/tmp/t.proto")
+ c:=protocompile.Compiler{Resolver: protocompile.WithStandardImports(&protocompile.SourceResolver{Accessor: protocompile.SourceAccessorFromMap(map[string]string{"t.proto":string(b)})})}
+ _,err:=c.Compile(context.Background(),"t.proto")
+ fmt.Println("ERR:",err)
 }
